@@ -123,6 +123,15 @@ func genC06(r *Rng, n int, tier string, emit func(Case)) {
 			// another page in the same directory (compiled before or after this one): nothing of it may carry over
 			c["siblings"] = []interface{}{prevDoc, prevDoc}
 			c["bucket"] = "tree+siblings"
+			if g.r.Bool() {
+				// neighbours that define and call mixins (compiled before and after this page), and a page that ends in text with
+				// white space at its end: the end of this document is the end of its own file, whatever else the directory holds
+				mix := []interface{}{nMixin("card", []interface{}{"x"}, nTag("aside", false, nil, nText("Teaser {{ for }} "), nBuf(eId("x"), true))),
+					nCall("card", []interface{}{eStr("Sale")}, nil), nText("after ")}
+				c["siblings"] = []interface{}{mix, prevDoc, mix, mix}
+				c["doc"] = append(append([]interface{}{}, doc...), nText([]string{"end ", "end\n", "end \t ", " "}[g.r.Intn(4)]))
+				c["bucket"] = "tree+mixin-siblings"
+			}
 		}
 		emit(c)
 		prevDoc = doc
